@@ -34,19 +34,19 @@ def gen_data(rng, n, d):
 def gen_case(chk, rng, force_small=False):
     big = chk.tier == "thorough"
     r = rng.random()
-    if force_small or r < 0.2:
+    if force_small or r < 0.15:
         n = int(rng.integers(1, 6))
-    elif r < 0.85:
+    elif r < 0.7:
         n = int(rng.integers(4, 25))
     else:
         n = int(rng.integers(20, 60 if big else 41))
     d = int(rng.integers(1, 5))
     style, X = gen_data(rng, n, d)
-    msl = min(n, int(rng.choice([1, 1, 1, 2, 2, 3, 4])))      # n < min_samples_leaf is refused by fit: malformed stream
-    mss = max(2, 2 * msl + int(rng.choice([0, 0, 0, 1, 2, 5])))
+    msl = min(n, int(rng.choice([1, 1, 1, 1, 2, 2, 3, 4])))      # n < min_samples_leaf is refused by fit: malformed stream
+    mss = max(2, 2 * msl + int(rng.choice([0, 0, 0, 0, 1, 2, 5])))
     p = dict(
-        max_clusters=int(rng.choice([1, 2, 2, 3, 3, 4, 5, 8])),
-        max_depth=None if rng.random() < 0.35 else int(rng.integers(1, 6)),
+        max_clusters=int(rng.choice([1, 2, 3, 3, 4, 5, 6, 8, 10])),
+        max_depth=None if rng.random() < 0.35 else int(rng.integers(1, 7)),
         min_samples_split=mss, min_samples_leaf=msl,
         max_features=None if rng.random() < 0.5 else int(rng.integers(1, d + 2)),
         max_leaves=None if rng.random() < 0.4 else int(rng.integers(2, n + 3)),
@@ -176,6 +176,7 @@ def ask_model(chk, X, p, calls, fresh):
     res["node_counts"] = t.list(t.int)
     res["count_leaves"] = t.int()
     res["depth"] = t.int()
+    res["trace"] = t.list(lambda: (t.int(), t.int(), t.list(t.int)))
     res["ranks"] = rk
     return res
 
@@ -209,12 +210,29 @@ def compare_l2(chk, est, X, p, Kmat, calls, fresh, replay):
     if [int(v) for v in est.leaves_] != m["leaves"]:
         chk.fail("fit:leaves", f"leaves_ differ from the model: impl={est.leaves_.tolist()} model={m['leaves']}", replay)
         ok = False
-    if calls and not (calls[-1]["gain"] > 0):
-        c = calls[-1]
-        if c["queue"] != m["queue"] or c["n_leaves"] != m["n_leaves"] or c["n_clusters"] != m["n_clusters"]:
-            chk.fail("fit:loop-state", f"final loop state differs: impl queue={c['queue']} n_leaves={c['n_leaves']} n_clusters={c['n_clusters']}; "
-                                       f"model queue={m['queue']} n_leaves={m['n_leaves']} n_clusters={m['n_clusters']}", replay)
+    # loop state handed to find_best_split at every iteration (n_leaves, n_clusters, leaves_to_explore)
+    itrace = [(c["n_leaves"], c["n_clusters"], c["queue"]) for c in calls]
+    if itrace != m["trace"]:
+        j = next((a for a in range(min(len(itrace), len(m["trace"]))) if itrace[a] != m["trace"][a]), min(len(itrace), len(m["trace"])))
+        chk.fail("fit:loop-state", f"loop state (n_leaves, n_clusters, leaves_to_explore) at find_best_split call #{j} differs: "
+                                   f"impl={itrace[j] if j < len(itrace) else None} model={m['trace'][j] if j < len(m['trace']) else None}", replay)
+        ok = False
+    paths = [route_np(tr, X[i]) for i in range(len(X))]
+    if all(q is not None for q in paths):
+        cnt = [0] * tr.n_nodes
+        for q in paths:
+            for a in q:
+                cnt[a] += 1
+        if cnt != m["node_counts"]:
+            chk.fail("fit:node-counts", f"number of training rows through each node differs: impl={cnt} model={m['node_counts']}", replay)
             ok = False
+    if m["count_leaves"] != sum(1 for a in tr.children_left if a == -1) or m["depth"] != tr.get_depth():
+        chk.fail("fit:leaves-depth", f"leaf count / get_depth() differ: impl={sum(1 for a in tr.children_left if a == -1)}/{tr.get_depth()} model={m['count_leaves']}/{m['depth']}", replay)
+        ok = False
+    lf = [None if (q := route_np(tr, fresh[j])) is None else q[-1] for j in range(len(fresh))]
+    if lf != m["leaf_fresh"]:
+        chk.fail("predict:fresh-leaf", f"leaf reached by fresh points differs: impl={lf} model={m['leaf_fresh']}", dict(replay, fresh=fresh.tolist()))
+        ok = False
     pt = [int(v) for v in est.predict(X)]
     if [None if v is None else int(v) for v in m["pred_train"]] != pt:
         chk.fail("predict:train", f"predict(X) differs from the model routing: impl={pt} model={m['pred_train']}", replay)
@@ -269,7 +287,7 @@ def leaf_boxes(tr, d):
     return boxes, seen
 
 
-def oracle_l3(chk, est, X, p, Kmat, fresh, replay):
+def oracle_l3(chk, est, X, p, Kmat, fresh, replay, calls=()):
     n, d = X.shape
     tr = est.tree_
     fl = lambda key, what, extra=None: chk.fail(key, what, dict(replay, **(extra or {})), layer="L3")
@@ -341,6 +359,18 @@ def oracle_l3(chk, est, X, p, Kmat, fresh, replay):
         if not (0 <= f < d) or not any(X[i, f] == th for i in range(n) if a in paths[i]):
             fl("tree:threshold-observed", f"node {a}: threshold {th!r} of feature {f} is not an observed value of that feature among the samples reaching the node")
             ok = False
+    # --- every split uses a feature find_best_split was offered (max_features distinct features of the data)
+    mf = d if p["max_features"] is None else min(d, max(p["max_features"], 1))
+    for j, c in enumerate(calls):
+        if len(c["features"]) != mf or len(set(c["features"])) != mf or not all(0 <= f < d for f in c["features"]):
+            fl("split:feature-subset", f"find_best_split call #{j} was offered features {c['features']} (max_features={p['max_features']}, d={d})")
+            ok = False
+        if c["gain"] > 0 and c["feature"] not in c["features"]:
+            fl("split:feature-not-offered", f"split #{j} uses feature {c['feature']} outside the offered subset {c['features']}")
+            ok = False
+        if c["gain"] > 0 and c["leaf"] not in c["queue"]:
+            fl("split:leaf-not-explorable", f"split #{j} splits leaf {c['leaf']} outside leaves_to_explore {c['queue']}")
+            ok = False
     # --- each leaf one cluster, leaves_ / labels_ bookkeeping, predict reproduces labels_
     leaf_node = np.array([q[-1] for q in paths])
     pred = est.predict(X)
@@ -385,13 +415,14 @@ def describe(p):
     return {k: p[k] for k in ("max_clusters", "max_depth", "min_samples_split", "min_samples_leaf", "max_features", "max_leaves", "kernel", "random_state")}
 
 
-def one_case(chk, rng, style, X, p, Kmat):
+def one_case(chk, rng, style, X, p, Kmat, fresh=None):
     n, d = X.shape
     replay = {"X": X.tolist(), "params": describe(p), "K": None if Kmat is None else Kmat.tolist()}
     est, calls = run_fit(X, p, Kmat)
     thresholds = [(est.tree_.features[a], est.tree_.thresholds[a]) for a in range(est.tree_.n_nodes) if est.tree_.features[a] is not None]
-    fresh = fresh_points(rng, X, thresholds)
-    ok3 = oracle_l3(chk, est, X, p, Kmat, fresh, replay)
+    if fresh is None:
+        fresh = fresh_points(rng, X, thresholds)
+    ok3 = oracle_l3(chk, est, X, p, Kmat, fresh, replay, calls)
     r2 = compare_l2(chk, est, X, p, Kmat, calls, fresh, replay)
     nsplit = sum(1 for c in calls if c["gain"] > 0)
     tr = est.tree_
@@ -428,11 +459,11 @@ def stream_fit(chk, i, rng):
 
 def stream_tight(chk, i, rng):
     """Limits drawn to interact: tiny data, root near min_samples_split, depth 1/2, leaves 2/3, many clusters allowed."""
-    style, X, p, Kmat = gen_case(chk, rng, force_small=(i % 2 == 0))
+    style, X, p, Kmat = gen_case(chk, rng, force_small=(i % 4 == 0))
     n = len(X)
     p["max_clusters"] = int(rng.choice([2, 3, 4, 6]))
     p["min_samples_leaf"] = int(rng.choice([1, 2, max(1, n // 4)]))
-    p["min_samples_split"] = max(2, 2 * p["min_samples_leaf"], int(rng.choice([2, n - 1, n, n + 1, max(2, n // 2)])))
+    p["min_samples_split"] = max(2, 2 * p["min_samples_leaf"], int(rng.choice([2, 2, 3, n - 1, n, n + 1, max(2, n // 2), max(2, n // 3)])))
     p["max_depth"] = [None, 1, 2, 3][int(rng.integers(0, 4))]
     p["max_leaves"] = [None, 2, 3, 4, max(2, n), n + 1][int(rng.integers(0, 6))]
     if n < p["min_samples_leaf"]:
@@ -475,7 +506,7 @@ def stream_malformed(chk, i, rng):
     chk.count(None)
 
 
-STREAMS = {"fit": (stream_fit, 420, 6000), "tight": (stream_tight, 260, 4000), "malformed": (stream_malformed, 45, 400)}
+STREAMS = {"fit": (stream_fit, 2000, 24000), "tight": (stream_tight, 1000, 13000), "malformed": (stream_malformed, 100, 1200)}
 
 
 def replay_case(chk, rp):
@@ -484,7 +515,8 @@ def replay_case(chk, rp):
         X = np.array(inp["X"], dtype=float)
         Kmat = None if inp.get("K") is None else np.array(inp["K"], dtype=float)
         p = dict(inp["params"])
-        one_case(chk, chk.rng("replay"), "replay", X, p, Kmat)
+        fresh = np.array(inp["fresh"], dtype=float).reshape(-1, X.shape[1]) if inp.get("fresh") else None
+        one_case(chk, chk.rng("replay"), "replay", X, p, Kmat, fresh)
         return True
     return False
 
